@@ -146,8 +146,8 @@ def pollLoop : List PollEv → XRes Bool × List PollEv
   | .idle :: rest => (.ok false, rest)
   | .eintr :: rest => pollLoop rest
   | .selErr _ :: rest => (.oserr, rest)
-  | .fdErr _ :: rest => (.other .notModelled, rest)
-  | .fdNeg :: rest => (.other .notModelled, rest)
+  | .fdErr _ :: rest => (.oserr, rest)     -- not a `p.poll` answer: the scripted poll object raises ValueError,
+  | .fdNeg :: rest => (.oserr, rest)       -- which `Stream.poll` turns into select_error (as for a real ValueError)
 
 def dPollLoop (d : DState) : XRes Bool × DState :=
   ((pollLoop d.pscript).1, { d with pscript := (pollLoop d.pscript).2 })
@@ -166,7 +166,7 @@ def dPoll (d : DState) : XRes Bool × DState :=
      else dFilenoErr Gen.ebadf d)                    -- the dead socket's fileno() raises EBADF
   else match d.pscript with
     | .fdErr e :: rest =>
-      if d.pipe then (.other .notModelled, { d with pscript := rest })
+      if d.pipe then dPollLoop d                     -- `PipeStream.fileno` has no failure path of its own
       else dFilenoErr e { d with pscript := rest }
     | .fdNeg :: rest => (.oserr, { d with pscript := rest })
     | _ => dPollLoop d
